@@ -784,7 +784,7 @@ def result_lit(v, kind):
     return zlit(int(v))
 
 
-COQ_HDR = common.CASES_HEADER + "From J2O Require Import Tensor Batch Graph Lowering LoweringSem OnnxInt Kernels Lift LiftProg LiftStruct.\n"
+COQ_HDR = common.CASES_HEADER + "From J2O Require Import Tensor Batch Graph Lowering LoweringSem OnnxInt Kernels Lift LiftProg LiftReduce LiftStruct.\n"
 
 
 def eq_term(kind, a, b):
@@ -897,7 +897,11 @@ def node_op_dtypes(model):
 # contain a deviating (operator, type) are not searched through onnxruntime (recorded in the coverage).
 ORT_KNOWN_DEVIATIONS = {("Max", "int64"), ("Min", "int64"), ("Sign", "int64"), ("Clip", "int64"), ("Relu", "int64"),
                         ("Max", "uint64"), ("Min", "uint64"), ("Clip", "uint64"), ("Pow", "int64"),
-                        ("Mod", "int64"), ("Mod", "uint64")}      # Mod(fmod=1) on 64-bit integers goes through double
+                        ("Mod", "int64"), ("Mod", "uint64"),      # Mod(fmod=1) on 64-bit integers goes through double
+                        # integer reductions: onnxruntime accumulates in double and SATURATES on the way back (ONNX leaves
+                        # integer overflow open; the wrapping model o_reduce_* agrees whenever nothing overflows, measured)
+                        ("ReduceSum", "int32"), ("ReduceSum", "int64"), ("ReduceProd", "int32"), ("ReduceProd", "int64"),
+                        ("ReduceMax", "int64"), ("ReduceMin", "int64")}
 OPSET = 23
 
 
@@ -1028,6 +1032,30 @@ def d1_prepare(ctx, tier, rng):
         for y in (0, 1, 2, 3):
             cols = (np.array(int_values(dt, small=True), dtype=dt),)
             add(f"Pow({y})", "Pow", {}, [dt], cols, f"(fun x => o_pow {sb_lit(dt)} x {y})", "int", consts=[np.array(y, dtype=dt)])
+    # Reduce*(axes=[1], keepdims=0) over rows of three elements
+    for op, fn in (("ReduceSum", "o_reduce_sum {SB} [a; b; c]"), ("ReduceProd", "o_reduce_prod {SB} [a; b; c]"),
+                   ("ReduceMax", "match o_reduce_max [a; b; c] with Some v => v | None => 0 end"),
+                   ("ReduceMin", "match o_reduce_min [a; b; c] with Some v => v | None => 0 end")):
+        for dt in INT_DTYPES:
+            vals = int_values(dt, small=True)
+            sm = [v for v in (0, 1, 2, 3, 7, -1, -2, -5) if np.iinfo(dt).min <= v <= np.iinfo(dt).max]
+            trip = [(a_, b_, vals[(i_ + 3 * j_) % len(vals)]) for i_, a_ in enumerate(vals) for j_, b_ in enumerate(vals)] + \
+                   [(a_, b_, c_) for a_ in sm for b_ in sm for c_ in sm[:4]]
+            mat = np.array(trip, dtype=dt)
+            model = _one_op_model(op, [dt], [mat.shape], {"keepdims": 0}, consts=[np.array([1], dtype=np.int64)])
+            if schema_type_errors(model):
+                skipped_schema.append(f"{op}:{dt}")
+                continue
+            try:
+                out = _ort_run(model, {"i0": mat})
+            except Exception as e:  # noqa: BLE001
+                if "NOT_IMPLEMENTED" in str(e):
+                    skipped_no_kernel.append(f"{op}:{dt}")
+                else:
+                    ctx.oblige(f"tieD1:{op}:{dt}", False, "tie", "onnxruntime failed on a one-op model: " + str(e)[:300])
+                continue
+            items.append((op, op, dt, f"(fun a b c => {fn.replace('{SB}', sb_lit(dt))})", tuple(mat[:, j_].copy() for j_ in range(3)),
+                          [[v] for v in out.tolist()], "int"))
     # OneHot(int64 indices, depth 4, float32 [0, 1]) — rows of 4 classes
     idx = np.array([-2 ** 40, -9, -8, -5, -4, -3, -2, -1, 0, 1, 2, 3, 4, 5, 8, 2 ** 40], dtype=np.int64)
     model = _one_op_model("OneHot", ["int64"], [idx.shape], {"axis": -1},
@@ -1475,17 +1503,23 @@ def prog_expected(pg):
 SPRIM_ALIAS = dict(PRIM_ALIAS)
 SPRIM_ALIAS.update({"jax.numpy.clip": "clip_op", "jax.numpy.subtract": "sub", "jax.numpy.multiply": "mul", "jax.numpy.negative": "neg",
                     "jax.numpy.not_equal": "ne", "jax.numpy.squeeze": "squeeze", "jax.numpy.transpose": "transpose",
-                    "jax.numpy.reshape": "reshape", "jax.numpy.floor_divide": "floor_divide", "jax.numpy.fmod": "fmod"})
+                    "jax.numpy.reshape": "reshape", "jax.numpy.floor_divide": "floor_divide", "jax.numpy.fmod": "fmod",
+                    "jax.numpy.concatenate": "concatenate"})
 STABLE_PRIMS = TABLE_PRIMS | {"clip_op", "floor_divide", "fmod"}
+REDUCE_PRIMS = {"reduce_sum": "RSum", "reduce_prod": "RProd", "reduce_max": "RMax", "reduce_min": "RMin", "reduce_and": "RAnd",
+                "reduce_or": "ROr", "jax.numpy.sum": "RSum", "jax.numpy.prod": "RProd", "jax.numpy.max": "RMax",
+                "jax.numpy.min": "RMin", "jax.numpy.all": "RAnd", "jax.numpy.any": "ROr"}
 CALL_PRIMS = {"jit", "pjit", "closed_call", "core_call"}
 
 
 class SProg:
-    def __init__(self, pid, text, make, shapes, dt, avoid=()):
+    def __init__(self, pid, text, make, shapes, dt, avoid=(), small=0):
         self.id, self.text, self.make, self.shapes, self.dt, self.avoid = pid, text, make, shapes, dt, set(avoid)
+        self.small = small          # number of leading fills drawn from small values (no overflow inside a reduction)
         self.fn = make()
         self.fills = self.jax = self.err = self.model = self.ort = None
         self.tab = self.prog = self.out = self.real = self.keys = None
+        self.type_errors = None
         self.s_job = self.j_job = self.o_job = None
 
 
@@ -1495,8 +1529,8 @@ def struct_corpus(tier):
     from jax import lax
     P = []
 
-    def add(pid, text, fn, shapes, dt="int32", avoid=()):
-        P.append(SProg(pid, text, (lambda f=fn: f), shapes, dt, avoid))
+    def add(pid, text, fn, shapes, dt="int32", avoid=(), small=0):
+        P.append(SProg(pid, text, (lambda f=fn: f), shapes, dt, avoid, small))
     add("rank_promo", "x * 2 + y", lambda x, y: x * 2 + y, [(2, 3), (3,)])
     add("where_lit", "where(x > y, x, 0)", lambda x, y: jnp.where(x > y, x, 0), [(2, 3), (3,)])
     add("reshape_T", "(x.reshape(3,2).T + y) * x", lambda x, y: (x.reshape(3, 2).T + y) * x, [(2, 3), (2, 3)])
@@ -1508,10 +1542,38 @@ def struct_corpus(tier):
         lambda x, y: jax.jit(lambda a, b: jnp.maximum(a, b[:, None]) * a)(x, y) - x, [(2, 3), (2,)])
     add("floor_div", "x // where(y == 0, 1, y)", lambda x, y: x // jnp.where(y == 0, 1, y), [(2, 3), (3,)], avoid=(-1,))
     add("swap", "swapaxes(x,0,2) - 1", lambda x: jnp.swapaxes(x, 0, 2) - 1, [(2, 3, 4)])
+    add("perm3", "transpose(x,(1,2,0)) + y", lambda x, y: jnp.transpose(x, (1, 2, 0)) + y, [(2, 3, 4), (4, 1)])
+    add("lax_perm3", "lax.transpose(x,(1,2,0)) * y", lambda x, y: lax.transpose(x, (1, 2, 0)) * y, [(2, 3, 4), (2,)])
     add("bcast_to", "broadcast_to(y,(2,3)) ^ 7", lambda y: jnp.broadcast_to(y, (2, 3)) ^ 7, [(3,)])
     add("u8_min", "minimum(x.reshape(3,2), y) * 3 [uint8]", lambda x, y: jnp.minimum(x.reshape(3, 2), y) * jnp.uint8(3), [(2, 3), (2,)], "uint8")
     add("i64_promo", "(x - y) * y [int64]", lambda x, y: (x - y) * y, [(2, 1, 3), (2, 3)], "int64")
+    # reductions over axes (exact with wraparound), concatenate, slice
+    add("sum_axis", "sum(x * y, axis=1)", lambda x, y: jnp.sum(x * y, axis=1), [(2, 3), (3,)], small=2)
+    add("lax_sum02", "lax.reduce_sum(x, (0,2)) - y", lambda x, y: lax.reduce_sum(x, axes=(0, 2)) - y, [(2, 3, 2), (3,)], small=2)
+    add("max_min", "max(x, axis=0) - min(x, axis=0)", lambda x: jnp.max(x, axis=0) - jnp.min(x, axis=0), [(3, 2)])
+    add("prod_axis", "prod(x, axis=1) + 1", lambda x: jnp.prod(x, axis=1) + 1, [(2, 3)], small=2)
+    add("sum_u8", "sum(x, axis=0) [uint8 -> uint32]", lambda x: jnp.sum(x, axis=0), [(3, 2)], "uint8")
+    add("lax_sum_u8", "lax.reduce_sum(x, (1,)) [uint8]", lambda x: lax.reduce_sum(x, axes=(1,)), [(2, 3)], "uint8")
+    add("any_all", "where(any(x > y, axis=1) & all(x != 0, axis=1), 1, 0)",
+        lambda x, y: jnp.where(jnp.any(x > y, axis=1) & jnp.all(x != 0, axis=1), 1, 0), [(2, 3), (3,)])
+    add("concat", "concatenate([x, y, x], 1) * 2", lambda x, y: lax.concatenate([x, y, x], 1) * 2, [(2, 3), (2, 2)])
+    add("jnp_concat", "concatenate([x, y], axis=0) - 1", lambda x, y: jnp.concatenate([x, y], axis=0) - 1, [(2, 3), (1, 3)])
+    add("slice", "x[1:, ::2] - y", lambda x, y: x[1:, ::2] - y, [(3, 5), (2, 3)])
+    add("lax_slice", "lax.slice(x, (0,1), (2,3)) ^ y", lambda x, y: lax.slice(x, (0, 1), (2, 3)) ^ y, [(2, 4), (2, 2)])
     if tier != "quick":
+        for dt_ in ("int8", "int16", "uint16", "uint32", "int64"):
+            add(f"lax_sum_{dt_}", f"lax.reduce_sum(x, (1,)) [{dt_}]", lambda x: lax.reduce_sum(x, axes=(1,)), [(2, 3)], dt_, small=2)
+            if dt_ not in ("int8", "int16"):       # jnp.sum promotes int8 / int16 to int32: Cast + ReduceSum, not modelled
+                add(f"jnp_sum_{dt_}", f"sum(x, axis=0) [{dt_}]", lambda x: jnp.sum(x, axis=0), [(3, 2)], dt_, small=2)
+            add(f"lax_max_{dt_}", f"lax.reduce_max(x, (0,)) [{dt_}]", lambda x: lax.reduce_max(x, axes=(0,)), [(3, 2)], dt_)
+            add(f"lax_prod_{dt_}", f"lax.reduce_prod(x, (1,)) [{dt_}]", lambda x: lax.reduce_prod(x, axes=(1,)), [(2, 3)], dt_, small=2)
+        add("lax_prod_uint8", "lax.reduce_prod(x, (1,)) [uint8]", lambda x: lax.reduce_prod(x, axes=(1,)), [(2, 3)], "uint8", small=2)
+        add("lax_max_uint8", "lax.reduce_max(x, (0,)) [uint8]", lambda x: lax.reduce_max(x, axes=(0,)), [(3, 2)], "uint8")
+        for dt_ in ("int16", "uint16"):
+            add(f"lax_min_{dt_}", f"lax.reduce_min(x, (0,)) [{dt_}]", lambda x: lax.reduce_min(x, axes=(0,)), [(3, 2)], dt_)
+        add("lax_min_int32", "lax.reduce_min(x, (1,2))", lambda x: lax.reduce_min(x, axes=(1, 2)), [(2, 2, 3)])
+        add("lax_and_or", "lax.reduce_and(x > 0, (0,)) | lax.reduce_or(y < 0, (1,))",
+            lambda x, y: lax.reduce_and(x > 0, axes=(0,)) | lax.reduce_or(y < 0, axes=(1,)), [(3, 2), (2, 3)])
         add("i16_sel", "where(x.T < y, -x.T, y - 3) [int16]", lambda x, y: jnp.where(x.T < y, -x.T, y - 3), [(3, 2), (2, 3)], "int16")
         add("u32_min", "minimum(x.T * 5, y - 3) [uint32]", lambda x, y: jnp.minimum(x.T * jnp.uint32(5), y - jnp.uint32(3)), [(3, 2), (2, 3)], "uint32")
         add("deep", "jit(jit(abs)(x) + y)(...).reshape(6) * 7",
@@ -1529,7 +1591,10 @@ def sprog_fills(sp, rng, nfill):
         cols = []
         for k_, sh in enumerate(sp.shapes):
             n = int(np.prod(sh)) if len(sh) else 1
-            if f == 0:
+            if f < sp.small:
+                sm = [v for v in (0, 1, 2, 3, 5, 7) + ((-1, -2, -3, -7) if dt.kind == "i" else ()) if v not in sp.avoid]
+                a = np.array([sm[(5 * j + 2 + 3 * k_ + f) % len(sm)] for j in range(n)], dtype=dt)
+            elif f == sp.small:
                 a = np.array([vals[(7 * j + 3 + 5 * k_) % len(vals)] for j in range(n)], dtype=dt)
             else:
                 a = np.array([rng.choice(vals) for _ in range(n)], dtype=dt)
@@ -1664,6 +1729,39 @@ def sprog_model(sp):
             if perm is None:
                 perm = tuple(reversed(range(len(shapes[0]))))
             emit(f"transpose@{list(perm)}", f"GTranspose {nlist(perm)}", [operand(ins[0])], o)
+        elif p in REDUCE_PRIMS:
+            rk = REDUCE_PRIMS[p]
+            if params.get("keepdims", False):
+                raise Unrecognised(f"{prim} with keepdims")
+            rank = len(shapes[0])
+            axes = params.get("axes")
+            axes = tuple(range(rank)) if axes is None else tuple(int(a_) % max(1, rank) for a_ in axes)
+            if not axes:
+                raise Unrecognised(f"{prim} over no axis")
+            mask = "[" + "; ".join(blit(i_ in axes) for i_ in range(rank)) + "]"
+            src, out_dt = dtn(ins[0][2]), dtn(oaval)
+            req = params.get("dtype")
+            req = None if req is None else str(np.dtype(req))
+            if rk in ("RAnd", "ROr"):
+                if src != "bool" or out_dt != "bool":
+                    raise Unrecognised(f"{prim} on {src}")
+                emit(f"{p}@{list(axes)}/{rank}", f"G{'ReduceAnd' if rk == 'RAnd' else 'ReduceOr'} {mask}", [operand(ins[0])], o)
+            elif src not in INT_DTYPES or out_dt not in INT_DTYPES:
+                raise Unrecognised(f"{prim} {src} -> {out_dt}")
+            elif rk == "RSum" and (req or src) in ("uint8", "uint16", "uint32"):
+                emit(f"{p}:{src}>{out_dt}@{list(axes)}/{rank}", f"GReduceSum64 {sb_lit(out_dt)} {mask}", [operand(ins[0])], o)
+            elif req is None and src == out_dt:
+                emit(f"{p}:{src}@{list(axes)}/{rank}", f"GReduce {rk} {sb_lit(src)} {mask}", [operand(ins[0])], o)
+            else:
+                raise Unrecognised(f"{prim} {src} -> {out_dt} (dtype={req})")
+        elif p == "concatenate":
+            ax = int(params["dimension"])
+            emit(f"concatenate@{ax}x{len(ins)}", f"GConcat {len(ins)}%nat {ax}%nat", [operand(a) for a in ins], o)
+        elif p == "slice":
+            st, li = tuple(params["start_indices"]), tuple(params["limit_indices"])
+            sr = params.get("strides")
+            sr = (1,) * len(st) if sr is None else tuple(sr)
+            emit(f"slice{list(st)}:{list(li)}:{list(sr)}", f"GSlice {nlist(st)} {nlist(li)} {nlist(sr)}", [operand(ins[0])], o)
         elif p == "convert_element_type":
             src, new = dtn(ins[0][2]), str(np.dtype(params["new_dtype"]))
             if src in INT_DTYPES and new in INT_DTYPES:
@@ -1707,6 +1805,18 @@ def rtree_of_model(model):
     inits = {i.name: numpy_helper.to_array(i) for i in g.initializer}
     env = {}
     nreal = 0
+    ranks = {}
+    try:
+        import onnx
+        bare = onnx.ModelProto()
+        bare.CopyFrom(model)
+        del bare.graph.value_info[:]                       # ranks from ONNX's own inference, not from the exporter's stamps
+        inferred = onnx.shape_inference.infer_shapes(bare, strict_mode=False)
+        for vi in list(inferred.graph.value_info) + list(inferred.graph.input) + list(inferred.graph.output):
+            if vi.type.tensor_type.HasField("shape"):
+                ranks[vi.name] = len(vi.type.tensor_type.shape.dim)
+    except Exception:  # noqa: BLE001
+        pass
     for i in g.input:
         if i.name in inits:
             continue
@@ -1753,9 +1863,43 @@ def rtree_of_model(model):
         out = n.output[0]
         if op == "Concat":
             only("axis")
-            if int(_attr(n, "axis")) != 0:
-                raise Unrecognised("Concat axis")
-            shapec[out] = [v for x in n.input for v in shapevec(x)]
+            is_shape = True
+            try:
+                vecs = [shapevec(x) for x in n.input]
+            except Unrecognised:
+                is_shape = False
+            if is_shape:
+                if int(_attr(n, "axis")) != 0:
+                    raise Unrecognised("Concat axis")
+                shapec[out] = [v for vv in vecs for v in vv]
+                continue
+            kids = [val(x) for x in n.input]
+            if len({k_[0] for k_ in kids}) != 1 or int(_attr(n, "axis")) < 0:
+                raise Unrecognised("Concat of mixed types / negative axis")
+            env[out] = (kids[0][0], f"(RConcat {int(_attr(n, 'axis'))}%nat [{'; '.join(k_[1] for k_ in kids)}])")
+            continue
+        if op in ("ReduceSum", "ReduceProd", "ReduceMax", "ReduceMin"):
+            only("keepdims", "noop_with_empty_axes")
+            if int(_attr(n, "keepdims", 1)) != 0 or int(_attr(n, "noop_with_empty_axes", 0)) != 0 or len(n.input) != 2:
+                raise Unrecognised(f"{op} attributes / arity")
+            dt, x = val(n.input[0])
+            rank = ranks.get(n.input[0])
+            axes = shapevec(n.input[1])
+            if dt not in INT_DTYPES or rank is None or not axes or any(a_ < 0 or a_ >= rank for a_ in axes):
+                raise Unrecognised(f"{op} on {dt} rank {rank} axes {axes}")
+            mask = "[" + "; ".join(blit(i_ in axes) for i_ in range(rank)) + "]"
+            env[out] = (dt, f"(RReduce R{op[6:]} {sb_lit(dt)} {mask} {x})")
+            continue
+        if op == "Slice":
+            only()
+            if len(n.input) not in (4, 5):
+                raise Unrecognised("Slice arity")
+            dt, x = val(n.input[0])
+            st, en, ax = shapevec(n.input[1]), shapevec(n.input[2]), shapevec(n.input[3])
+            sp_ = shapevec(n.input[4]) if len(n.input) == 5 else [1] * len(st)
+            if ax != list(range(len(st))) or ranks.get(n.input[0]) != len(st) or any(v < 0 for v in st + en) or any(v < 1 for v in sp_):
+                raise Unrecognised(f"Slice starts {st} ends {en} axes {ax} steps {sp_}")
+            env[out] = (dt, f"(RSlice {nlist(st)} {nlist(en)} {nlist(sp_)} {x})")
             continue
         if op in ("Reshape", "Expand", "Squeeze"):
             only("allowzero") if op == "Reshape" else only()
@@ -1990,7 +2134,7 @@ def run(ctx):
         pg.fills = prog_fills(pg, rng, 4 if tier == "quick" else 10)
     sprogs = struct_corpus(tier)
     for sp in sprogs:
-        sp.fills = sprog_fills(sp, rng, 3 if tier == "quick" else 8)
+        sp.fills = sprog_fills(sp, rng, sp.small + (3 if tier == "quick" else 8))
     prev64 = _set_x64(False)
     try:
         # ---- phase 1: eager JAX references (BEFORE any export of the same callable)
@@ -2407,7 +2551,7 @@ def run(ctx):
         deviated = bool(node_op_dtypes(sp.model) & deviations)
         if sp.o_job is not None:
             ob = results[sp.o_job]
-            if ob == [] or deviated:
+            if ob == [] or (deviated and ob is not None and all(i_ >= sp.small for i_ in ob)):
                 n_sp_onnx += 1
             else:
                 ctx.oblige(f"tieD3-sprogram:{sp.id}", False, "tie",
@@ -2426,15 +2570,16 @@ def run(ctx):
                 break
         else:
             n_sp_searched += 1
-        if bad is not None and not deviated:
+        if bad is not None and (not deviated or bad[0] < sp.small):
             f_, got, exp = bad
             ctx.violate(f"sprogram:{sp.id}:{sp.dt}",
                         f"traced program {desc}: operands {[c.tolist() for c in sp.fills[f_]]}: exported model in onnxruntime gives "
                         f"{got}, eager JAX gives {exp}; nodes {structure(sp.model)}",
                         {"kind": "sprogram", "id": sp.id, "operands": [c.tolist() for c in sp.fills[f_]], "onnxruntime": got, "jax": exp,
                          "nodes": structure(sp.model)})
-    ctx.oblige(f"tieS:traced-program-graph-is-what-the-model-dispatcher-emits({n_sp_tied}/{len(sprogs)} programs)",
-               n_sp_tied == len(sprogs), "tie", "" if n_sp_tied == len(sprogs) else "see the tieS-sprogram / sprog obligations")
+    n_sp_valid = len([sp for sp in sprogs if not (sp.real is not None and sp.type_errors)])     # invalid exports are findings
+    ctx.oblige(f"tieS:traced-program-graph-is-what-the-model-dispatcher-emits({n_sp_tied}/{n_sp_valid} programs)",
+               n_sp_tied == n_sp_valid, "tie", "" if n_sp_tied == n_sp_valid else "see the tieS-sprogram / sprog obligations")
     ctx.coverage.update({"c01k_traced_programs": len(sprogs), "c01k_traced_programs_structure_tied": n_sp_tied,
                          "c01k_traced_programs_jax_semantics_tied": n_sp_jax, "c01k_traced_programs_onnx_semantics_tied": n_sp_onnx,
                          "c01k_traced_programs_searched_in_onnxruntime": n_sp_searched, "c01k_traced_program_points": sp_points,
